@@ -680,7 +680,23 @@ def gen_net():
     gone = restore and ".unwrap()" not in (fn_body(outq, "tcp_teardown") or ".unwrap()") and ".unwrap()" not in str_
     record("dns.muxRestoresCallerId", restore, "dns/outquery.rs send_tcp_reply", ok=restore)
     record("dns.muxSendIgnoresGoneWaiter", gone, "dns/outquery.rs send_tcp_reply / tcp_teardown", ok=gone)
+    run = fn_body(outq, "run") or ""
+    resets = bool(re.search(r"Ok\(sock\) => self\.tcp = Some\(sock\),.*?\}\s*self\.tcp_last_recv_activity = Instant::now\(\);\s*self\.tcp_last_send_activity = Instant::now\(\);\s*if let Err\(e\) = self\.send_tcp_query\(msg\)\.await", run, re.S))
+    record("dns.muxConnectResetsTimers", resets, "dns/outquery.rs TcpNameserver::run", ok=resets)
+    idle = [int(x) for x in re.findall(r"sleep_until\(last_(?:send|recv)_activity \+ std::time::Duration::from_secs\(([0-9]+)\)\)", run)]
+    record("dns.muxIdleSeconds", idle, "dns/outquery.rs TcpNameserver::run", ok=len(idle) == 2 and idle[0] == idle[1])
+    su = fn_body(outq, "send_udp") or ""
+    cl1 = bool(re.search(r"\*timeout = std::cmp::max\(\s*std::cmp::min\(new_timeout, MAX_DNS_TIMEOUT\),\s*MIN_DNS_TIMEOUT\);", su))
+    cl2 = bool(re.search(r"\*timeout = std::cmp::max\(\s*std::cmp::min\(std::cmp::max\(\*timeout, new_timeout\), MAX_DNS_TIMEOUT\),\s*MIN_DNS_TIMEOUT\);", su))
+    nwrites = len(re.findall(r"\*timeout\s*=", su))
+    clamped = cl1 and cl2 and nwrites == 2
+    record("dns.timeoutUpdatesClamped", clamped, "dns/outquery.rs send_udp (both writes of DNS_TIMEOUT)", ok=clamped)
     L = ["-- generated by tools/extract.py; do not edit", "namespace Erbium.Generated.Net",
+         "/-- every write of the adaptive DNS_TIMEOUT is `max(min(_, MAX), MIN)` -/",
+         "def timeoutUpdatesClamped : Bool := %s" % boolean(clamped),
+         "/-- a newly opened upstream TCP connection starts with fresh send/receive timestamps -/",
+         "def muxConnectResetsTimers : Bool := %s" % boolean(resets),
+         "def muxIdleSeconds : Nat := %s" % (idle[0] if len(idle) == 2 and idle[0] == idle[1] else 0),
          "/-- `std_to_libc_in_addr` builds `s_addr` with `u32::from_ne_bytes(addr.octets())` -/",
          "def inAddrFromNeBytes : Bool := %s" % boolean(ok),
          "/-- `send_tcp_query` picks the next free id instead of asserting that the caller's id is free -/",
